@@ -230,3 +230,18 @@ package definition
 //@ func IterateSentinelEntries(context, f) -> (err)
 //@   trusted
 //@   modifies *
+
+// ---- spork contract: id -> (activated, enforcement height) (property C17) ------------------------------------------------------
+//@ model github.com/zenon-network/go-zenon/common/db:DB sporkHas map[arr]bool
+//@ model github.com/zenon-network/go-zenon/common/db:DB sporkActivated map[arr]bool
+//@ model github.com/zenon-network/go-zenon/common/db:DB sporkHeight map[arr]int
+//@ func GetSporkInfoById(context, id)
+//@   trusted
+//@   ensures result != nil <==> context.sporkHas[id]
+//@   ensures result != nil ==> fresh(result) && result.Id == id && result.Activated == context.sporkActivated[id] && result.EnforcementHeight == context.sporkHeight[id]
+//@   modifies nothing
+//@ func Spork.Save(spork, context)
+//@   trusted
+//@   requires spork != nil
+//@   ensures context.sporkHas == store(old(context.sporkHas), spork.Id, true) && context.sporkActivated == store(old(context.sporkActivated), spork.Id, spork.Activated) && context.sporkHeight == store(old(context.sporkHeight), spork.Id, spork.EnforcementHeight)
+//@   modifies MF:common/db.DB.spork*
